@@ -7,27 +7,7 @@ I = _z3.IntSort()
 AR = _z3.ArraySort(I, R)
 AAR = _z3.ArraySort(I, AR)
 
-# Spec functions (uninterpreted symbols + their two defining equations, instantiated where a loop needs them):
-#   DOT(X, off, st, H, n)          = sum_{j<n} X[off + j*st] * H[j]                    (one polyphase branch)
-#   BRSUM(X, base, st, HH, S, k)   = sum_{k'<k} DOT(X, base + k', st, HH[k'], S)        (k branches)
-DOT = _z3.Function('dot', AR, I, I, AR, I, R)
-BRSUM = _z3.Function('brsum', AR, I, I, AAR, I, I, R)
-
-
-def DOT_BASE(X, o, s, H):
-    return DOT(X, o, s, H, 0) == 0
-
-
-def DOT_STEP(X, o, s, H, n):
-    return _z3.Implies(n >= 0, DOT(X, o, s, H, n + 1) == DOT(X, o, s, H, n) + X[o + n * s] * H[n])
-
-
-def BRSUM_BASE(X, b, s, HH, S):
-    return BRSUM(X, b, s, HH, S, 0) == 0
-
-
-def BRSUM_STEP(X, b, s, HH, S, k):
-    return _z3.Implies(k >= 0, BRSUM(X, b, s, HH, S, k + 1) == BRSUM(X, b, s, HH, S, k) + DOT(X, b + k, s, HH[k], S))
+from engine.specfun import DOT, BRSUM, data
 
 
 def hist_concat(d, x):
@@ -35,10 +15,6 @@ def hist_concat(d, x):
     j = _z3.Int('j!hc')
     dv, xv = d.tree.f['_vec'], x.tree.f['_vec']
     return _z3.Lambda([j], _z3.If(j < dv.len, _z3.Select(dv.data, j), _z3.Select(xv.data, j - dv.len)))
-
-
-def data(a):
-    return a.tree.f['_vec'].data
 
 
 def bank(h):
@@ -52,8 +28,7 @@ def bank_ok(h, m, s):
     return _z3.And(h.len == m, _z3.ForAll([k], _z3.Implies(_z3.And(0 <= k, k < m), _z3.Select(lens, k) == s)))
 
 
-ENV = {'DOT': DOT, 'BRSUM': BRSUM, 'DOT_BASE': DOT_BASE, 'DOT_STEP': DOT_STEP, 'BRSUM_BASE': BRSUM_BASE,
-       'BRSUM_STEP': BRSUM_STEP, 'hist_concat': hist_concat, 'data': data, 'bank': bank, 'bank_ok': bank_ok}
+ENV = {'hist_concat': hist_concat, 'bank': bank, 'bank_ok': bank_ok}
 
 TU_DEC = 'lib/resample/fir-decimator.cpp'
 
@@ -83,3 +58,175 @@ fn('dsplib::FIRDecimator::process', TU_DEC, serves=['C08', 'C06', 'C05'], extra_
                    ('acc', 'y[i] == BRSUM(X, i*M, M, bank(h_), S, k) + DOT(X, i*M + k, M, bank(h_)[k], j)'),
                    ('others', 'forall(lambda q: Implies(And(0 <= q, q < y.len, q != i), y[q] == pre.y[q]))')]},
    })
+
+# ---------------------------------------------------------------------------------------------------
+TU_INT = 'lib/resample/fir-interpolator.cpp'
+INT_OK = 'And(interp_ >= 1, sublen_ >= 1, bank_ok(h_, interp_, sublen_), d_.len == sublen_ - 1)'
+
+fn('dsplib::FIRInterpolator::process', TU_INT, serves=['C08', 'C06', 'C05'], extra_env=ENV,
+   requires=[('invariant', INT_OK), ('size', 'd_.len + in_.len + 1 <= INT_MAX'), ('outsize', 'in_.len * interp_ <= INT_MAX')],
+   lets={'X': 'hist_concat(d_, in_)', 'L': 'interp_', 'S': 'sublen_', 'nd': 'd_.len', 'nx': 'in_.len'},
+   throws='False',
+   assigns=['this.d_'],
+   ensures=[('invariant', INT_OK),
+            ('count', 'result.len == nx * L'),
+            ('history', 'forall(lambda t: Implies(And(0 <= t, t < nd), d_[t] == X[nx + t]))'),
+            ('polyphase_sum', 'forall(lambda q, b: Implies(And(0 <= q, q < nx, 0 <= b, b < L), result[q*L + b] == DOT(X, q, 1, bank(h_)[b], S)))')],
+   prop_of={'history': ['C06'], 'polyphase_sum': ['C08', 'C06'], 'count': ['C08'], 'throws': ['C08', 'C05']},
+   loops={
+       1: {'inv': [('x', 'And(px.len == nd + nx, forall(lambda t: Implies(And(0 <= t, t < nd + nx), px[t] == X[t])))'),
+                   ('py', 'py.off == i * L'), ('ylen', 'y.len == nx * L'),
+                   ('done', 'forall(lambda q, b: Implies(And(0 <= q, q < i, 0 <= b, b < L), y[q*L + b] == DOT(X, q, 1, bank(h_)[b], S)))'),
+                   ('todo', 'forall(lambda t: Implies(And(i * L <= t, t < y.len), y[t] == 0))')]},
+       2: {'inv': [('ylen', 'y.len == nx * L'), ('py', 'py.off == i * L + k'),
+                   ('done', 'forall(lambda b: Implies(And(0 <= b, b < k), y[i*L + b] == DOT(X, i, 1, bank(h_)[b], S)))'),
+                   ('others', 'forall(lambda t: Implies(And(0 <= t, t < y.len, Or(t < i*L, t >= i*L + k)), y[t] == pre.y[t]))')]},
+       3: {'facts': ['DOT_BASE(X, i, 1, bank(h_)[k])', 'DOT_STEP(X, i, 1, bank(h_)[k], j)'],
+           'inv': [('ylen', 'y.len == nx * L'),
+                   ('acc', 'y[i*L + k] == DOT(X, i, 1, bank(h_)[k], j)'),
+                   ('others', 'forall(lambda t: Implies(And(0 <= t, t < y.len, t != i*L + k), y[t] == pre.y[t]))')]},
+   })
+
+# ---------------------------------------------------------------------------------------------------
+TU_RC = 'lib/resample/fir-rate-converter.cpp'
+RC_OK = ('And(interp_ >= 1, decim_ >= 1, sublen_ >= 1, bank_ok(h_, interp_, sublen_), d_.len == sublen_ - 1, '
+         'xidxs_.len == interp_, forall(lambda t: Implies(And(0 <= t, t < interp_), And(0 <= xidxs_[t], xidxs_[t] < decim_))))')
+
+fn('dsplib::FIRRateConverter::process', TU_RC, serves=['C08', 'C06', 'C05'], extra_env=ENV,
+   requires=[('invariant', RC_OK), ('size', 'd_.len + in_.len + decim_ <= INT_MAX'),
+             ('outsize', 'in_.len * interp_ <= INT_MAX')],
+   lets={'X': 'hist_concat(d_, in_)', 'L': 'interp_', 'M': 'decim_', 'S': 'sublen_', 'nd': 'd_.len', 'nx': 'in_.len',
+         'NP': 'tdiv(in_.len, decim_)'},
+   throws='tmod(in_.len, decim_) != 0',
+   assigns=['this.d_'],
+   ensures=[('invariant', RC_OK),
+            ('count', 'result.len == NP * L'),
+            ('history', 'forall(lambda t: Implies(And(0 <= t, t < nd), d_[t] == X[nx + t]))'),
+            ('polyphase_sum', 'forall(lambda q, b: Implies(And(0 <= q, q < NP, 0 <= b, b < L), result[q*L + b] == DOT(X, q*M + xidxs_[b], 1, bank(h_)[b], S)))')],
+   prop_of={'history': ['C06'], 'polyphase_sum': ['C08', 'C06'], 'count': ['C08'], 'throws': ['C08', 'C05']},
+   loops={
+       1: {'inv': [('x', 'And(x.len == nd + nx, forall(lambda t: Implies(And(0 <= t, t < nd + nx), x[t] == X[t])))'),
+                   ('py', 'py.off == i * L'), ('ylen', 'y.len == NP * L'),
+                   ('done', 'forall(lambda q, b: Implies(And(0 <= q, q < i, 0 <= b, b < L), y[q*L + b] == DOT(X, q*M + xidxs_[b], 1, bank(h_)[b], S)))'),
+                   ('todo', 'forall(lambda t: Implies(And(i * L <= t, t < y.len), y[t] == 0))')]},
+       2: {'inv': [('ylen', 'y.len == NP * L'), ('py', 'py.off == i * L + k'),
+                   ('done', 'forall(lambda b: Implies(And(0 <= b, b < k), y[i*L + b] == DOT(X, i*M + xidxs_[b], 1, bank(h_)[b], S)))'),
+                   ('others', 'forall(lambda t: Implies(And(0 <= t, t < y.len, Or(t < i*L, t >= i*L + k)), y[t] == pre.y[t]))')]},
+       3: {'facts': ['DOT_BASE(X, i*M + xidxs_[k], 1, bank(h_)[k])', 'DOT_STEP(X, i*M + xidxs_[k], 1, bank(h_)[k], j)'],
+           'inv': [('ylen', 'y.len == NP * L'),
+                   ('acc', 'y[i*L + k] == DOT(X, i*M + xidxs_[k], 1, bank(h_)[k], j)'),
+                   ('others', 'forall(lambda t: Implies(And(0 <= t, t < y.len, t != i*L + k), y[t] == pre.y[t]))')]},
+   })
+
+# ---------------------------------------------------------------------------------------------------
+TU_RS = 'lib/resample/resample.cpp'
+IR = 'dsplib::IResampler::'
+
+
+def padded(h, t):
+    """h zero-padded (spec view): h[t] inside, 0 beyond"""
+    hv = h.tree.f['_vec']
+    return _z3.If(_z3.And(0 <= t, t < hv.len), _z3.Select(hv.data, t), _z3.RealVal(0))
+
+
+ENV['padded'] = padded
+
+fn(IR + 'simplify', TU_RS, serves=['C08', 'C05'], pure=True,
+   requires=[('positive', 'And(p >= 1, q >= 1)')],
+   ensures=[('reduced', 'exists(lambda g: And(g >= 1, p == result.first * g, q == result.second * g))'),
+            ('positive', 'And(result.first >= 1, result.second >= 1, result.first <= p, result.second <= q)'),
+            ('unit_iff_equal', '(result.first == result.second) == (p == q)')])
+
+fn(IR + 'next_size', TU_RS, sig='(int, int, int)', serves=['C08', 'C05'], pure=True,
+   requires=[('positive', 'And(p >= 1, q >= 1, size >= 0, size <= INT_MAX - q)')],
+   ensures=[('covers', 'And(result >= size, result < size + q)'),
+            ('multiple', 'exists(lambda t, d, g: And(g >= 1, q == d * g, d >= 1, result == t * d, result - size < d))')])
+
+fn(IR + 'prev_size', TU_RS, sig='(int, int, int)', serves=['C08', 'C05'], pure=True,
+   requires=[('positive', 'And(p >= 1, q >= 1, size >= 0)')],
+   ensures=[('covers', 'And(result <= size, result > size - q)'),
+            ('multiple', 'exists(lambda t, d, g: And(g >= 1, q == d * g, d >= 1, result == t * d, size - result < d))')])
+
+fn(IR + 'polyphase', TU_RS, serves=['C08', 'C05'], extra_env=ENV, pure=True,
+   requires=[('positive', 'And(m >= 1, m <= 1073741824, h.len >= 1, h.len <= INT_MAX - 2*m)')],
+   ghost={'s': 'RealVal(1)'}, ghost_on=[('ret:sum', None, {'s': 'arg'})],
+   lets={'N': 'If(tmod(h.len, m) == 0, tdiv(h.len, m), tdiv(h.len, m) + 1)'},
+   throws='False',
+   ensures=[('branches', 'And(result.len == m, bank_ok(result, m, N))'),
+            ('covers', 'And(N * m >= h.len, (N - 1) * m < h.len)'),
+            ('decomposition', 'exists_w(lambda c: forall(lambda i, k: Implies(And(0 <= i, i < m, 0 <= k, k < N), '
+             'bank(result)[i][k] == (padded(old.h, i + If(flip_coeffs, N - 1 - k, k) * m) / c) * gain)), s)')],
+   loops={1: {'inv': [('shape', 'And(r.len == m, bank_ok(r, m, n))'),
+                      ('done', 'forall(lambda a, k: Implies(And(0 <= a, a < i, 0 <= k, k < n), bank(r)[a][k] == h[a + k*m] * gain))')]},
+          2: {'inv': [('shape', 'And(r.len == m, bank_ok(r, m, n))'), ('ih', 'ih == i + k * m'),
+                      ('row', 'forall(lambda t: Implies(And(0 <= t, t < k), bank(r)[i][t] == h[i + t*m] * gain))'),
+                      ('others', 'forall(lambda a, t: Implies(And(0 <= a, a < i, 0 <= t, t < n), bank(r)[a][t] == pre.r[a][t]))')]},
+          3: {'inv': [('shape', 'And(r.len == m, bank_ok(r, m, n))'),
+                      ('flipped', 'forall(lambda a, k: Implies(And(0 <= a, a < i, 0 <= k, k < n), bank(r)[a][k] == h[a + (n-1-k)*m] * gain))'),
+                      ('todo', 'forall(lambda a, k: Implies(And(i <= a, a < m, 0 <= k, k < n), bank(r)[a][k] == h[a + k*m] * gain))')]}})
+
+# ---------------------------------------------------------------------------------------------------
+# constructors: establish the object invariants the process() contracts require
+fn('dsplib::FIRDecimator::FIRDecimator', TU_DEC, sig='(int, const dsplib::arr_real &)', serves=['C08', 'C06', 'C05'],
+   extra_env=ENV, assigns=['this'],
+   requires=[('positive', 'And(decim >= 1, decim <= 1048576, h.len >= 1, h.len <= 1048576)')],
+   throws='False',
+   ensures=[('invariant', DEC_OK), ('rate', 'decim_ == decim'), ('sublen', 'sublen_ == If(tmod(h.len, decim) == 0, tdiv(h.len, decim), tdiv(h.len, decim) + 1)'),
+            ('rest', 'forall(lambda t: Implies(And(0 <= t, t < d_.len), d_[t] == 0))')])
+
+fn('dsplib::FIRInterpolator::FIRInterpolator', TU_INT, sig='(int, const dsplib::arr_real &)', serves=['C08', 'C06', 'C05'],
+   extra_env=ENV, assigns=['this'],
+   requires=[('positive', 'And(interp >= 1, interp <= 1048576, h.len >= 1, h.len <= 1048576)')],
+   throws='False',
+   ensures=[('invariant', INT_OK), ('rate', 'interp_ == interp'), ('sublen', 'sublen_ == If(tmod(h.len, interp) == 0, tdiv(h.len, interp), tdiv(h.len, interp) + 1)'),
+            ('rest', 'forall(lambda t: Implies(And(0 <= t, t < d_.len), d_[t] == 0))')])
+
+fn('dsplib::FIRRateConverter::FIRRateConverter', TU_RC, sig='(int, int, const dsplib::arr_real &)',
+   serves=['C08', 'C06', 'C05'], extra_env=ENV, assigns=['this'],
+   requires=[('positive', 'And(interp >= 1, interp <= 32768, decim >= 1, decim <= 32768, h.len >= 1, h.len <= 1048576)')],
+   throws='False',
+   ensures=[('invariant', RC_OK), ('rates', 'And(interp_ == interp, decim_ == decim)'), ('sublen', 'sublen_ == If(tmod(h.len, interp) == 0, tdiv(h.len, interp), tdiv(h.len, interp) + 1)'),
+            ('rest', 'forall(lambda t: Implies(And(0 <= t, t < d_.len), d_[t] == 0))'),
+            # fixed phase of the zero-stuff / filter / keep-every-M-th chain (DESIGN appendix E): the t-th branch
+            # sits at running position pos_t = (t+1)*M - 1 = xidxs_[t]*L + branch_t, and the branch index is the
+            # row of the polyphase table that was copied
+            ('schedule', 'forall(lambda t: Implies(And(0 <= t, t < interp_), And(xidxs_[t] * interp_ <= (t+1)*decim_ - 1, (t+1)*decim_ - 1 < (xidxs_[t] + 1) * interp_)))')],
+   loops={1: {'inv': [('cnt', 'And(h_.len == xidxs_.len, 0 <= st, st < decim_, h_.len * decim_ + st == i * interp_)'),
+                      ('rows', 'forall(lambda t: Implies(And(0 <= t, t < h_.len), bank_len(h_, t) == sublen_))'),
+                      ('range', 'forall(lambda t: Implies(And(0 <= t, t < xidxs_.len), And(0 <= xidxs_[t], xidxs_[t] < decim_)))'),
+                      ('schedule', 'forall(lambda t: Implies(And(0 <= t, t < xidxs_.len), And(xidxs_[t] * interp_ <= (t+1)*decim_ - 1, (t+1)*decim_ - 1 < (xidxs_[t] + 1) * interp_)))')]},
+          2: {'inv': [('cnt', 'And(h_.len == xidxs_.len, 0 <= st, st < decim_, h_.len * decim_ + st == i * interp_ + k)'),
+                      ('rows', 'forall(lambda t: Implies(And(0 <= t, t < h_.len), bank_len(h_, t) == sublen_))'),
+                      ('range', 'forall(lambda t: Implies(And(0 <= t, t < xidxs_.len), And(0 <= xidxs_[t], xidxs_[t] < decim_)))'),
+                      ('schedule', 'forall(lambda t: Implies(And(0 <= t, t < xidxs_.len), And(xidxs_[t] * interp_ <= (t+1)*decim_ - 1, (t+1)*decim_ - 1 < (xidxs_[t] + 1) * interp_)))')]}})
+
+
+def bank_len(h, t):
+    return _z3.Select(h.tree.data.f['_vec'].len, t)
+
+
+ENV['bank_len'] = bank_len
+
+# delays and rates (used by resample() through the FIRResampler wrapper)
+fn('dsplib::FIRDecimator::delay', TU_DEC, serves=['C08'], pure=True, ensures=[('value', 'result == tdiv(sublen_, 2)')])
+fn('dsplib::FIRDecimator::decim_rate', TU_DEC, serves=['C08'], pure=True, ensures=[('value', 'result == decim_')])
+fn('dsplib::FIRInterpolator::delay', TU_INT, serves=['C08'], pure=True,
+   requires=['sublen_ * interp_ <= INT_MAX', 'sublen_ >= 0', 'interp_ >= 0'],
+   ensures=[('value', 'result == tdiv(sublen_ * interp_, 2)')])
+fn('dsplib::FIRInterpolator::interp_rate', TU_INT, serves=['C08'], pure=True, ensures=[('value', 'result == interp_')])
+fn('dsplib::FIRRateConverter::delay', TU_RC, serves=['C08'], pure=True, requires=['sublen_ < INT_MAX - 2'],
+   ensures=[('value', 'result == tdiv(sublen_, 2) + 1')])
+fn('dsplib::FIRRateConverter::interp_rate', TU_RC, serves=['C08'], pure=True, ensures=[('value', 'result == interp_')])
+fn('dsplib::FIRRateConverter::decim_rate', TU_RC, serves=['C08'], pure=True, ensures=[('value', 'result == decim_')])
+inline_fn('dsplib::IResampler::delay', 'dsplib::IResampler::decim_rate', 'dsplib::IResampler::interp_rate',
+          'dsplib::FIRResampler::delay', 'dsplib::FIRResampler::interp_rate', 'dsplib::FIRResampler::decim_rate',
+          'dsplib::FIRResampler::process', 'dsplib::FIRResampler::FIRResampler',
+          'dsplib::(anon)::BypassResampler::process', 'dsplib::(anon)::BypassResampler::BypassResampler')
+
+fn('dsplib::resample', TU_RS, sig='(const dsplib::arr_real &, int, int, const dsplib::arr_real &)', serves=['C08', 'C05'],
+   extra_env=ENV, pure=True,
+   requires=[('ratio', 'And(p_ >= 1, p_ <= 1024, q_ >= 1, q_ <= 1024)'), ('coeffs', 'And(h.len >= 1, h.len <= 1048576)'),
+             ('signal', 'x.len <= 1048576')],
+   throws='False',
+   ensures=[('identity', 'Implies(p_ == q_, result == x)'),
+            ('length', 'exists(lambda p1, q1, g, c: And(g >= 1, p_ == p1*g, q_ == q1*g, c*q1 >= x.len, (c-1)*q1 < x.len, result.len == p1*c))')])
